@@ -120,6 +120,7 @@ func Discharge(obls []*Obligation, opts SolveOpts, workers int, wantModels bool)
 	type job struct {
 		o      *Obligation
 		script string
+		aided  string
 		small  string
 		mq     *modelQuery
 	}
@@ -174,7 +175,11 @@ func Discharge(obls []*Obligation, opts SolveOpts, workers int, wantModels bool)
 				small = tb.Script(append(append([]*Term(nil), asserts...), extra...), gv, false)
 			}
 		}
-		jobs = append(jobs, job{o, tb.Script(asserts, gv, false), small, mq})
+		aided := ""
+		if len(o.Aid) > 0 {
+			aided = tb.Script(append(append([]*Term(nil), asserts...), o.Aid...), gv, false)
+		}
+		jobs = append(jobs, job{o, tb.Script(asserts, gv, false), aided, small, mq})
 	}
 	_ = ch
 	jch := make(chan job)
@@ -183,7 +188,7 @@ func Discharge(obls []*Obligation, opts SolveOpts, workers int, wantModels bool)
 		go func() {
 			defer wg.Done()
 			for j := range jch {
-				r := Solve(j.script, opts)
+				r := SolveAided(j.script, j.aided, opts)
 				if r.Status == "sat" && j.small != "" {
 					// prefer a counterexample with small slices (replayable); keep the first answer otherwise
 					if r2 := Solve(j.small, opts); r2.Status == "sat" {
